@@ -68,7 +68,7 @@ impl Property for C11 {
     }
 
     fn assumptions() -> Vec<String> {
-        vec!["flips inside the 4 magic bytes are not in the statement (from_bytes ignores them, the MAC is recomputed with the constant) and are not generated".into(), "the ephemeral variant uses OS randomness: checked through relations only (embedded key decrypts, layout lengths)".into()]
+        vec!["every bit position of the serialised ciphertext is flipped, the four magic bytes included".into(), "the ephemeral variant uses OS randomness: checked through relations only (embedded key decrypts, layout lengths)".into()]
     }
 
     fn cases(tier: Tier) -> u64 {
